@@ -7,6 +7,7 @@
 //   U <path>
 //   I <opts>                      (FileSystem::init on the Vfs)   each backend answers init with <ierr>: I <opts> <ierr>
 //   D                             (FileSystem::destroy)
+//   R [W:]<op> (W: = through Arc<Vfs>; a<op>/y<op> = AsyncFileSystem method, y = backend futures pending once)
 //   R <op> <hdr> <uid> <gid> <ino> <ino2> <name> <name2> <auid> <agid> <size> <offset> <limit>
 //       A <err> <e.ino> <e.stino> <e.uid> <e.gid> <e.tag> <a.ino> <a.uid> <a.gid> <a.tag> <tag> <n> {<d.ino> <d.name> <e.ino> <e.stino> <e.uid> <e.gid> <e.tag>}*
 //   S <ver 1|2> <fresh same|default>      (feature persist) save, restore into a fresh Vfs, re-attach, continue on it
@@ -505,7 +506,11 @@ mod asyncfs {
     }
 
     // request kinds a<op> (backend futures always ready) and y<op> (every backend future Pending once)
-    pub fn do_async(vfs: &Vfs, sh: &Arc<Shared>, op: &str, ctx: &Context, ino: u64, name: &CStr, auid: u32, agid: u32, size: u32, offset: u64) -> Option<String> {
+    pub fn do_async<F>(vfs: &F, sh: &Arc<Shared>, op: &str, ctx: &Context, ino: u64, name: &CStr, auid: u32, agid: u32, size: u32, offset: u64) -> Option<String>
+    where
+        F: AsyncFileSystem<Handle = u64> + Sync,
+        F::Inode: From<u64>,
+    {
         use fuse_backend_rs::api::filesystem::AsyncFileSystem as A;
         let (yield_once, base) = match op.split_at(1) {
             ("a", b) => (false, b),
@@ -618,8 +623,28 @@ fn pmap(t: &[&str], i: usize) -> (Option<(u32, u32, u32)>, usize) {
     }
 }
 
-fn do_req(vfs: &Vfs, sh: &Arc<Shared>, t: &[&str]) -> String {
-    let op = t[1];
+#[cfg(feature = "async-io")]
+trait FsUnderTest: asyncfs_bound::Bound {}
+#[cfg(feature = "async-io")]
+impl<T: asyncfs_bound::Bound> FsUnderTest for T {}
+#[cfg(not(feature = "async-io"))]
+trait FsUnderTest: FileSystem<Handle = u64> {}
+#[cfg(not(feature = "async-io"))]
+impl<T: FileSystem<Handle = u64>> FsUnderTest for T {}
+#[cfg(feature = "async-io")]
+mod asyncfs_bound {
+    pub trait Bound: fuse_backend_rs::api::filesystem::AsyncFileSystem<Handle = u64> + Sync {}
+    impl<T: fuse_backend_rs::api::filesystem::AsyncFileSystem<Handle = u64> + Sync> Bound for T {}
+}
+
+// the file system under test is the Vfs itself or Arc<Vfs> (the way a Server holds it: every method then goes through the
+// blanket `impl FileSystem for Arc<FS>` / `impl AsyncFileSystem for Arc<FS>` forwarders)
+fn do_req<F>(vfs: &F, sh: &Arc<Shared>, t: &[&str]) -> String
+where
+    F: FsUnderTest,
+    F::Inode: From<u64>,
+{
+    let op = t[1].trim_start_matches("W:");
     let hdr: u64 = p(t, 2);
     let mut ctx = Context { uid: p(t, 3), gid: p(t, 4), pid: 77 };
     let ino: u64 = p(t, 5);
@@ -810,7 +835,7 @@ fn main() {
     let f: Box<dyn BufRead> = if args.len() > 1 { Box::new(io::BufReader::new(std::fs::File::open(&args[1]).unwrap())) } else { Box::new(io::BufReader::new(io::stdin())) };
     let stdout = io::stdout();
     let mut w = io::BufWriter::new(stdout.lock());
-    let mut vfs: Option<Vfs> = None;
+    let mut vfs: Option<Arc<Vfs>> = None; // held the way a Server holds it
     let mut cfg = Cfg { gmap: None, rm_root: false, no_open: true, no_opendir: true, no_writeback: false, killpriv_v2: false, no_readdir: false, seal_size: false };
     let sh = Arc::new(Shared::default());
     let mut live: Vec<Live> = Vec::new();
@@ -825,7 +850,7 @@ fn main() {
             let (gmap, i) = pmap(&t, 2);
             let fl = |k: usize| t.len() > i + k && t[i + k] == "1";
             cfg = Cfg { gmap, rm_root: fl(0), no_open: fl(1), no_opendir: fl(2), no_writeback: fl(3), killpriv_v2: fl(4), no_readdir: fl(5), seal_size: fl(6) };
-            vfs = Some(new_vfs(&cfg, false));
+            vfs = Some(Arc::new(new_vfs(&cfg, false)));
             live.clear();
             dead = false;
             writeln!(w, "CASE {}", t[1]).unwrap();
@@ -843,7 +868,8 @@ fn main() {
         }
         sh.log.lock().unwrap().clear();
         *sh.init_err.lock().unwrap() = None;
-        let v = vfs.as_ref().unwrap();
+        let va: &Arc<Vfs> = vfs.as_ref().unwrap();
+        let v: &Vfs = va;
         #[allow(unused_mut)]
         let mut replace: Option<Vfs> = None;
         let res = catch_unwind(AssertUnwindSafe(|| -> String {
@@ -883,6 +909,8 @@ fn main() {
                     String::from("ok 0")
                 }
                 "Q" => dump_state(v),
+                // W:<op>: through Arc<Vfs> (blanket impl FileSystem / AsyncFileSystem for Arc<FS>), else on the Vfs itself
+                "R" if t[1].starts_with("W:") => do_req(va, &sh, &t),
                 "R" => do_req(v, &sh, &t),
                 "S" => {
                     #[cfg(feature = "persist")]
@@ -905,7 +933,7 @@ fn main() {
             }
         }));
         if let Some(nv) = replace {
-            vfs = Some(nv);
+            vfs = Some(Arc::new(nv));
         }
         let mut line = match res {
             Ok(s) => s,
